@@ -1,4 +1,5 @@
 import GA.Gen.Body
+import GA.Model.BodyIter
 import GA.Model.Iter
 import GA.Model.IterOwn
 import GA.Lemmas.Iter
@@ -9,12 +10,7 @@ Refinement obligations of the whole-body tie: interpreting the regenerated body 
 -/
 namespace GA.Bridge.Body
 open GA.Body GA.Iter GA.Own
-
-/-- machine state of an iterator value -/
-def ofIter (it : Iter) : St :=
-  { self := ⟨it.slots, it.front, it.back, 0⟩, out := ⟨[], 0, 0, 0⟩, hasOut := false, calls := 0, forgot := false }
-
-def toIter (s : St) : Iter := ⟨s.self.slots, s.self.index, s.self.indexBack⟩
+open GA.BodyIter (ofIter toIter)
 
 def outR : IOut → R
   | .item (some x) => .ret (.some (.elem x))
@@ -34,7 +30,7 @@ theorem panics_eq (ids : List Nat) (bad : Option Nat) : GA.Body.panics ids bad =
 open Lean.Parser.Tactic in
 /-- unfold the interpreter on a concrete body -/
 macro "body_simp" "[" ts:simpLemma,* "]" : tactic =>
-  `(tactic| simp [runFn, runDropOn, exec, eval, loopOver, ofIter, St.obj, St.putObj, O.get, O.put, natOf, boolOf,
+  `(tactic| simp [runFn, runDropOn, exec, eval, loopOver, GA.BodyIter.ofIter, St.obj, St.putObj, O.get, O.put, natOf, boolOf,
       resolve, idsOf, panics_eq, outR, $ts,*])
 
 def resR : GA.IterOwn.NthRes → R
@@ -242,7 +238,7 @@ open Lean.Parser.Tactic in
 /-- like `body_simp`, but loops stay folded (`exec_foldS`, `exec_zipS`) -/
 macro "body_simp_l" "[" ts:simpLemma,* "]" : tactic =>
   `(tactic| simp [runFn, runDropOn, exec_foldS, exec_zipS, exec_done, exec_letv, exec_set, exec_forget, exec_newOut,
-      exec_drop, eval, ofIter, St.obj, St.putObj, O.get, O.put, natOf, boolOf, resolve, idsOf, panics_eq, $ts,*])
+      exec_drop, eval, GA.BodyIter.ofIter, St.obj, St.putObj, O.get, O.put, natOf, boolOf, resolve, idsOf, panics_eq, $ts,*])
 
 /-- the closure calls of a fold over the elements `xs`, first call index `k`:
     events, whether every call returned, number of elements handed out -/
@@ -379,6 +375,132 @@ theorem rfold_body (it : Iter) (h : Inv it) (c : Ctx) (hbad : c.bad = none) :
       GA.IterOwn.panics, List.drop_reverse, List.take_take, e3, e4]
   · body_simp_l [Gen.Body.rfold, Gen.Body.dropIter, positions, h1, h2, hl, rfoldSpec, abs, sliceOf, hsp, hbad]
 
+/-! #### `Clone::clone` -/
+
+def pairsFrom (j i : Nat) : Nat → List V
+  | 0 => []
+  | r + 1 => .pair (.slot .out j) (.slot .self i) :: pairsFrom (j + 1) (i + 1) r
+
+theorem zip_positions_eq : ∀ (m n j i : Nat),
+    (List.zip ((List.range' j m).map (V.slot .out)) ((List.range' i n).map (V.slot .self))).map
+        (fun p => V.pair p.1 p.2) = pairsFrom j i (min m n)
+  | 0, n, j, i => by simp [pairsFrom]
+  | m + 1, 0, j, i => by simp [pairsFrom]
+  | m + 1, n + 1, j, i => by
+    have := zip_positions_eq m n (j + 1) (i + 1)
+    simp only [List.range'_succ, List.map_cons, List.zip_cons_cons, Nat.succ_min_succ, pairsFrom]
+    simpa using this
+
+/-- the `Clone::clone` calls over the elements `xs`: events, whether all returned, the clones made -/
+def cloneCalls (cl : Nat → Option Nat) : List Nat → Nat → List Ev × Bool × List Nat
+  | [], _ => ([], true, [])
+  | x :: xs, k =>
+    match cl k with
+    | none => ([.lend k x, .panic k], false, [])
+    | some y =>
+      let r := cloneCalls cl xs (k + 1)
+      (.lend k x :: .take k y :: r.1, r.2.1, y :: r.2.2)
+
+def setMany (l : List Nat) (j : Nat) : List Nat → List Nat
+  | [] => l
+  | y :: ys => setMany (l.set j y) (j + 1) ys
+
+theorem setMany_length (ys : List Nat) : ∀ (l : List Nat) (j : Nat), (setMany l j ys).length = l.length := by
+  induction ys with
+  | nil => intro l j; rfl
+  | cons y ys ih => intro l j; simp [setMany, ih]
+
+theorem setMany_eq (ys : List Nat) : ∀ (l : List Nat) (j : Nat), j + ys.length ≤ l.length →
+    setMany l j ys = l.take j ++ ys ++ l.drop (j + ys.length) := by
+  induction ys with
+  | nil => intro l j _; simp [setMany]
+  | cons y ys ih =>
+    intro l j h
+    have hj : j < l.length := by simp at h; omega
+    have h' : j + 1 + ys.length ≤ (l.set j y).length := by simp at h ⊢; omega
+    rw [setMany, ih (l.set j y) (j + 1) h', List.take_set, List.drop_set_of_lt (by omega)]
+    have e : (l.take (j + 1)).set j y = l.take j ++ [y] := by
+      have hl1 : j < (l.take (j + 1)).length := by simp; omega
+      have hm : min j (j + 1) = j := by omega
+      rw [List.set_eq_take_append_cons_drop, if_pos hl1, List.take_take, hm, List.drop_take]
+      simp
+    rw [e]
+    simp [Nat.add_assoc, Nat.add_comm 1]
+
+theorem clone_loop (c : Ctx) (self : O) (fg : Bool) :
+    ∀ (r j i k : Nat) (outSlots : List Nat), i + r ≤ self.slots.length → j + r ≤ outSlots.length → j + r < word →
+      loopOver (zipBody c (loopBodyOf Gen.Body.clone.body) []) (pairsFrom j i r)
+          ⟨self, ⟨outSlots, 0, j, 0⟩, true, k, fg⟩
+        = ((cloneCalls c.cl ((self.slots.drop i).take r) k).1,
+           (if (cloneCalls c.cl ((self.slots.drop i).take r) k).2.1 then R.ret .unit else R.panicked),
+           ⟨self, ⟨setMany outSlots j (cloneCalls c.cl ((self.slots.drop i).take r) k).2.2, 0,
+               j + (cloneCalls c.cl ((self.slots.drop i).take r) k).2.2.length, 0⟩, true,
+             k + (cloneCalls c.cl ((self.slots.drop i).take r) k).2.2.length
+               + (if (cloneCalls c.cl ((self.slots.drop i).take r) k).2.1 then 0 else 1), fg⟩) := by
+  intro r
+  induction r with
+  | zero => intro j i k o _ _ _; simp [pairsFrom, loopOver, cloneCalls, setMany]
+  | succ r ih =>
+    intro j i k o h1 h2 h3
+    have hi : i < self.slots.length := by omega
+    have hj : j < o.length := by omega
+    have hj1 : j + 1 < word := by omega
+    rw [List.drop_eq_getElem_cons hi]
+    simp only [List.take_succ_cons, pairsFrom, loopOver, cloneCalls]
+    cases hc : c.cl k with
+    | none =>
+      simp [zipBody, loopBodyOf, Gen.Body.clone, exec, eval, St.obj, St.putObj, O.get, O.put, natOf, hi, hj, hj1, hc, setMany]
+    | some y =>
+      have := ih (j + 1) (i + 1) (k + 1) (o.set j y) (by omega) (by simp; omega) (by omega)
+      simp [zipBody, loopBodyOf, Gen.Body.clone, exec, eval, St.obj, St.putObj, O.get, O.put, natOf, hi, hj, hj1, hc, setMany] at this ⊢
+      rw [this]
+      simp; omega
+
+/-- `clone` as a whole: the calls, then — if one panicked — the partially built iterator (a local
+    of `clone`) releases the clones made so far -/
+def cloneSpec (cl : Nat → Option Nat) (xs : List Nat) : List Ev × Option (List Nat) :=
+  ((cloneCalls cl xs 0).1 ++ (if (cloneCalls cl xs 0).2.1 then [] else (cloneCalls cl xs 0).2.2.map .drop),
+    if (cloneCalls cl xs 0).2.1 then some (cloneCalls cl xs 0).2.2 else none)
+
+theorem cloneCalls_len (cl : Nat → Option Nat) : ∀ (xs : List Nat) (k : Nat), (cloneCalls cl xs k).2.2.length ≤ xs.length
+  | [], _ => by simp [cloneCalls]
+  | x :: xs, k => by
+    unfold cloneCalls
+    split
+    · simp
+    · have := cloneCalls_len cl xs (k + 1)
+      simp; omega
+
+theorem clone_body (it : Iter) (h : Inv it) (hw : it.slots.length < word) (c : Ctx) (hbad : c.bad = none) :
+    let r := runFn c Gen.Body.dropIter.body Gen.Body.clone [] (ofIter it)
+    (r.1, r.2.1) = ((cloneSpec c.cl (abs it)).1,
+        match (cloneSpec c.cl (abs it)).2 with | some _ => R.ret .obj | none => R.panicked)
+    ∧ (∀ made, (cloneSpec c.cl (abs it)).2 = some made →
+        r.2.2.out = ⟨setMany it.slots 0 made, 0, made.length, 0⟩ ∧ toIter r.2.2 = it) := by
+  obtain ⟨h1, h2⟩ := h
+  have hz := zip_positions_eq it.slots.length (it.back - it.front) 0 it.front
+  have hmin : min it.slots.length (it.back - it.front) = it.back - it.front := by omega
+  rw [hmin] at hz
+  have hl := clone_loop c ⟨it.slots, it.front, it.back, 0⟩ false (it.back - it.front) 0 it.front 0 it.slots
+    (by simp; omega) (by omega) (by omega)
+  simp only [loopBodyOf, Gen.Body.clone] at hl
+  have hle := cloneCalls_len c.cl ((it.slots.drop it.front).take (it.back - it.front)) 0
+  have hlen : ((it.slots.drop it.front).take (it.back - it.front)).length = it.back - it.front := by
+    simp; omega
+  rw [hlen] at hle
+  generalize hsp : cloneCalls c.cl ((it.slots.drop it.front).take (it.back - it.front)) 0 = sp at hl hle
+  obtain ⟨ev, ok, made⟩ := sp
+  simp only at hle
+  cases ok
+  · have e1 : made.length ≤ it.slots.length := by omega
+    have e2 : (setMany it.slots 0 made).length = it.slots.length := setMany_length made it.slots 0
+    body_simp_l [Gen.Body.clone, Gen.Body.dropIter, zipPositions, positions, h1, h2, hz, hl, cloneSpec, abs, sliceOf,
+      hsp, hbad, GA.IterOwn.panics, e1, e2]
+    rw [setMany_eq made it.slots 0 (by omega)]
+    simp
+  · body_simp_l [Gen.Body.clone, Gen.Body.dropIter, zipPositions, positions, h1, h2, hz, hl, cloneSpec, abs, sliceOf,
+      hsp, hbad, GA.BodyIter.toIter]
+
 /-- `last(self)`: `next_back()`, then the iterator (owned by `last`) is dropped -/
 theorem last_body (it : Iter) (h : Inv it) (c : Ctx) :
     let r := runFn c Gen.Body.dropIter.body Gen.Body.last [] (ofIter it)
@@ -413,7 +535,7 @@ theorem intoIter_body (l : List Nat) (c : Ctx) (hn : c.n = l.length) :
     let r := runFn c Gen.Body.dropIter.body Gen.Body.intoIter []
       { self := ⟨l, 0, 0, 0⟩, out := ⟨[], 0, 0, 0⟩, hasOut := false, calls := 0, forgot := false }
     (r.1, r.2.1, toIter { r.2.2 with self := r.2.2.out }) = ([], R.ret .obj, Iter.ofList l) := by
-  body_simp [Gen.Body.intoIter, toIter, Iter.ofList, Gen.Iter.initFront, Gen.Iter.initBack, hn]
+  body_simp [Gen.Body.intoIter, GA.BodyIter.toIter, Iter.ofList, Gen.Iter.initFront, Gen.Iter.initBack, hn]
 
 /-! ### `src/internal.rs`: the three drop guards, `is_full`, `finish` -/
 
@@ -451,5 +573,76 @@ theorem finish_body (slots : List Nat) (pos : Nat) (c : Ctx) :
     let r := runFn c Gen.Body.intrusiveDrop.body Gen.Body.intrusiveFinish [] (ofBuilder slots pos)
     (r.1, r.2.1) = ([], R.ret .unit) := by
   body_simp [Gen.Body.intrusiveFinish, ofBuilder]
+
+/-! ### Value view (no panics): what the C06 refinement needs -/
+
+theorem nth_value_body (it : Iter) (n : Nat) (h : Inv it) (hw : it.slots.length < word) (c : Ctx) (hb : c.bad = none) :
+    let r := runFn c Gen.Body.dropIter.body Gen.Body.nth [.nat n] (ofIter it)
+    (r.2.1, r.2.2) = (outR (Iter.nth it n).1, ofIter (Iter.nth it n).2) := by
+  obtain ⟨h1, h2⟩ := h
+  generalize hk : min n (it.back - it.front) = k
+  have hk1 : it.front + k ≤ it.back := by omega
+  have hk2 : it.front + k ≤ it.slots.length := by omega
+  have hk3 : it.front + k < word := by omega
+  by_cases hlt : it.front + k < it.back
+  · have hb' : it.front + k < it.slots.length := by omega
+    have ho : it.front + k + 1 < word := by omega
+    body_simp [Gen.Body.nth, Iter.nth, Gen.Iter.nthDropLo, Gen.Iter.nthDropHi, Gen.Iter.nthNext,
+      Gen.Iter.nthThenNext, Gen.Iter.nthNextOk, rangeOk, h1, hk, hk1, hk2, hk3, hb, GA.IterOwn.panics,
+      Iter.next, Gen.Iter.nextCond, Gen.Iter.nextAdv, Gen.Iter.nextRead, Gen.Iter.nextReadBeforeAdv, readSlot, hlt, hb', ho]
+  · body_simp [Gen.Body.nth, Iter.nth, Gen.Iter.nthDropLo, Gen.Iter.nthDropHi, Gen.Iter.nthNext,
+      Gen.Iter.nthThenNext, Gen.Iter.nthNextOk, rangeOk, h1, hk, hk1, hk2, hk3, hb, GA.IterOwn.panics,
+      Iter.next, Gen.Iter.nextCond, hlt]
+
+theorem nthBack_value_body (it : Iter) (n : Nat) (h : Inv it) (c : Ctx) (hb : c.bad = none) :
+    let r := runFn c Gen.Body.dropIter.body Gen.Body.nthBack [.nat n] (ofIter it)
+    (r.2.1, r.2.2) = (outR (Iter.nthBack it n).1, ofIter (Iter.nthBack it n).2) := by
+  obtain ⟨h1, h2⟩ := h
+  generalize hk : min n (it.back - it.front) = k
+  have hk1 : k ≤ it.back := by omega
+  have hk2 : it.front ≤ it.back - k := by omega
+  have hk4 : it.back - (it.back - k) = k := by omega
+  by_cases hlt : it.front < it.back - k
+  · have hb' : it.back - k - 1 < it.slots.length := by omega
+    have ho : 1 ≤ it.back - k := by omega
+    body_simp [Gen.Body.nthBack, Iter.nthBack, Gen.Iter.nthBackDropLo, Gen.Iter.nthBackDropHi,
+      Gen.Iter.nthBackNext, Gen.Iter.nthBackThenNextBack, Gen.Iter.nthBackNextOk, rangeOk, h1, h2, hk, hk1, hk2, hk4,
+      hb, GA.IterOwn.panics, Iter.nextBack, Gen.Iter.nextBackCond, Gen.Iter.nextBackAdv, Gen.Iter.nextBackAdvOk,
+      Gen.Iter.nextBackRead, Gen.Iter.nextBackDecBeforeRead, readSlot, hlt, hb', ho]
+  · body_simp [Gen.Body.nthBack, Iter.nthBack, Gen.Iter.nthBackDropLo, Gen.Iter.nthBackDropHi,
+      Gen.Iter.nthBackNext, Gen.Iter.nthBackThenNextBack, Gen.Iter.nthBackNextOk, rangeOk, h1, h2, hk, hk1, hk2, hk4,
+      hb, GA.IterOwn.panics, Iter.nextBack, Gen.Iter.nextBackCond, hlt]
+
+theorem inR_outR (o : IOut) : GA.BodyIter.inR (outR o) = o := by
+  cases o with
+  | item x => cases x <;> rfl
+  | hint lo hi => cases hi <;> rfl
+  | _ => rfl
+
+/-- with closures that never panic, the calls hand out exactly the elements, in order -/
+theorem callsSpec_quiet : ∀ (xs : List Nat) (k : Nat),
+    gives (callsSpec (fun _ => false) xs k).1 = xs ∧ (callsSpec (fun _ => false) xs k).2.1 = true
+  | [], _ => by simp [callsSpec, gives]
+  | x :: xs, k => by
+    have := callsSpec_quiet xs (k + 1)
+    simp [callsSpec, gives, this]
+
+/-- a `Clone` that copies the value it is given reproduces the remaining elements -/
+theorem cloneCalls_copy (l : List Nat) : ∀ (xs : List Nat) (j : Nat), l.drop j = xs →
+    (cloneCalls (fun k => l[k]?) xs j).2 = (true, xs)
+  | [], _, _ => by simp [cloneCalls]
+  | x :: xs, j, h => by
+    have hj : j < l.length := by
+      apply Classical.byContradiction; intro hn
+      rw [List.drop_eq_nil_of_le (by omega)] at h; cases h
+    have hx : l[j]? = some x := by
+      rw [List.drop_eq_getElem_cons hj] at h
+      rw [List.getElem?_eq_getElem hj]; congr 1; exact (List.cons.inj h).1
+    have ht : l.drop (j + 1) = xs := by
+      rw [List.drop_eq_getElem_cons hj] at h; exact (List.cons.inj h).2
+    have := cloneCalls_copy l xs (j + 1) ht
+    simp only [cloneCalls, hx]
+    rw [Prod.ext_iff] at this
+    simp [this.1, this.2]
 
 end GA.Bridge.Body
